@@ -120,6 +120,10 @@ func (b *writeBuffer) advancePastLeadingZeroes() (n uint64) {
 	}
 	n = uint64(i - b.p)
 	b.p = i
+	if i < len(b.prev) {
+		// b.prev still holds a non-zero byte, which comes before b.curr.
+		return n
+	}
 
 	// Consume zeroes from b.curr.
 	i = 0
